@@ -49,17 +49,18 @@ def values(shape, seed, domain, k):
 
 
 class Entry:
-    def __init__(self, family, label, shapes, fn, domains=None, note=None):
+    def __init__(self, family, label, shapes, fn, domains=None, note=None, only=None):
         self.family, self.label, self.shapes, self.fn = family, label, [tuple(s) for s in shapes], fn
         self.domains = domains or ["any"] * len(shapes)
         self.note = note
+        self.only = only      # None = every mode; otherwise the set of modes the entry is meant for
 
 
 def catalog():
     E = []
 
-    def add(family, label, shapes, fn, domains=None):
-        E.append(Entry(family, label, shapes, fn, domains))
+    def add(family, label, shapes, fn, domains=None, only=None):
+        E.append(Entry(family, label, shapes, fn, domains, only=only))
 
     # ---- unary element-wise
     un = {"absolute": "any", "arccos": "unit", "arccosh": "gt1", "arcsin": "unit", "arcsinh": "any", "arctan": "any", "arctanh": "unit", "cbrt": "any", "cos": "any", "cosh": "small",
@@ -100,6 +101,14 @@ def catalog():
         add("binary", "%s where" % name, [(2, 3), (3,)], (lambda f: lambda a, b: f(a, b, where=np.array([[True, False, True], [False, False, True]]), out=mg.zeros((2, 3), dtype="float64")))(f), list(doms))
         add("binary", "%s scalar right" % name, [(2, 3)], (lambda f: lambda a: f(a, 1.7))(f), [doms[0]])
         add("binary", "%s scalar left" % name, [(2, 3)], (lambda f: lambda b: f(1.7, b))(f), [doms[1]])
+    # where= WITHOUT out=: masked-out positions of the result are uninitialised memory, so these entries are used for the aliasing oracle only
+    for name in ("add", "subtract", "multiply", "maximum"):
+        f = getattr(mg, name)
+        add("binary", "%s where-no-out" % name, [(2, 3), (3,)], (lambda f: lambda a, b: f(a, b, where=np.array([[True, False, True], [False, False, True]])))(f), only={"alias"})
+        add("binary", "%s where-no-out broadcast mask" % name, [(2, 3), (2, 3)], (lambda f: lambda a, b: f(a, b, where=np.array([True, False, True])))(f), only={"alias"})
+    for name in ("positive", "negative", "exp"):
+        f = getattr(mg, name)
+        add("unary", "%s where-no-out" % name, [(2, 3)], (lambda f: lambda a: f(a, where=np.array([True, False, True])))(f), only={"alias"})
     add("binary", "power int exponent 3", [(2, 3)], lambda a: mg.power(a, 3))
     add("binary", "power ** 2 negative base", [(2, 3)], lambda a: a ** 2)
     add("binary", "power ** -1", [(2, 3)], lambda a: a ** -1)
@@ -260,6 +269,8 @@ def catalog():
     return E
 
 
+LAST_TERMINALS = []
+
 UFUNCS = {"absolute", "arccos", "arccosh", "arcsin", "arcsinh", "arctan", "arctanh", "cbrt", "cos", "cosh", "exp", "exp2", "expm1", "log", "log10", "log1p", "log2", "negative",
           "positive", "reciprocal", "sin", "sinh", "sqrt", "square", "tan", "tanh"}
 
@@ -361,6 +372,26 @@ def run_alias(e, seed, variant):
     for k, (a, s) in enumerate(zip(owned, snap)):
         if not np.array_equal(a, s, equal_nan=True):
             msgs.append("evaluating the operation modified input %d" % k)
+    if variant == 3:
+        # no explicit seed: L.backward() on a 0-d terminal; its gradient must be its own array (not shared with earlier terminals)
+        L = out if out.ndim == 0 else out.sum()
+        try:
+            L.backward()
+        except Exception as ex:
+            return {"label": e.label, "msgs": ["backward() raised %s: %s" % (type(ex).__name__, str(ex)[:80])]}
+        for prev in LAST_TERMINALS:
+            if prev.grad is not None and L.grad is not None and np.shares_memory(prev.grad, L.grad):
+                msgs.append("the gradient of a terminal tensor shares memory with the gradient of the terminal of an earlier, unrelated backward()")
+        if L.grad is not None:
+            before = [p.grad.copy() for p in LAST_TERMINALS if p.grad is not None]
+            L.grad[...] = 7.0
+            after = [p.grad for p in LAST_TERMINALS if p.grad is not None]
+            if any(not np.array_equal(b, a) for b, a in zip(before, after)):
+                msgs.append("editing one terminal's .grad in place changed another terminal's .grad")
+            L.grad[...] = 1.0
+        LAST_TERMINALS.append(L)
+        del LAST_TERMINALS[:-3]
+        return {"label": e.label, "family": e.family, "msgs": sorted(set(msgs))}
     rs = np.random.RandomState(seed + 7)
     gbase = np.asarray(rs.randn(*((2,) + tuple(out.shape))), dtype=out.dtype)
     g = gbase[1] if variant == 1 else np.array(gbase[1])
@@ -420,6 +451,48 @@ def run_alias(e, seed, variant):
     return {"label": e.label, "family": e.family, "msgs": sorted(set(msgs))}
 
 
+def run_const(e, seed, variant):
+    """C10 for every operation: arrays and constant tensors are constants; the result is constant exactly when every input is.
+    variant 0: all operands raw arrays; 1: all constant tensors; 2: operand 0 a non-constant tensor, the others raw arrays;
+    3: operand 0 a constant tensor, the others raw arrays; 4: last operand non-constant, the others constant tensors"""
+    reset_global_state()
+    if e.label.endswith(" where") or e.label.startswith("setitem"):
+        return {"label": e.label, "family": e.family, "skipped": "in-place target (keeps its own flag: covered by the in-place cells of the lattice)"}
+    arrays = [values(s, seed, d, j) for j, (s, d) in enumerate(zip(e.shapes, e.domains))]
+    n = len(arrays)
+    if variant == 0:
+        ops, flags = [a.copy() for a in arrays], [True] * n
+    elif variant == 1:
+        ops, flags = [mg.tensor(a, constant=True) for a in arrays], [True] * n
+    elif variant == 2:
+        ops, flags = [mg.tensor(arrays[0])] + [a.copy() for a in arrays[1:]], [False] + [True] * (n - 1)
+    elif variant == 3:
+        ops, flags = [mg.tensor(arrays[0], constant=True)] + [a.copy() for a in arrays[1:]], [True] * n
+    else:
+        ops, flags = [mg.tensor(a, constant=True) for a in arrays[:-1]] + [mg.tensor(arrays[-1])], [True] * (n - 1) + [False]
+    try:
+        out = e.fn(*ops)
+    except Exception as ex:
+        return {"label": e.label, "family": e.family, "skipped": type(ex).__name__}
+    if not isinstance(out, mg.Tensor):
+        return {"label": e.label, "family": e.family, "skipped": "not a tensor: " + type(out).__name__}
+    msgs = []
+    want = all(flags)
+    if bool(out.constant) != want:
+        msgs.append("result.constant is %s although %s" % (out.constant, "every input is a constant (arrays / constant tensors)" if want else "an input is a non-constant tensor"))
+    if not out.constant and out.dtype.kind == "f":
+        try:
+            out.backward()
+        except Exception as ex:
+            msgs.append("backward raised %s" % type(ex).__name__)
+        for o, c in zip(ops, flags):
+            if isinstance(o, mg.Tensor) and c and o.grad is not None:
+                msgs.append("a constant input tensor holds a gradient after backward()")
+    elif out.constant and out.grad is not None:
+        msgs.append("a constant result holds a gradient")
+    return {"label": e.label, "family": e.family, "msgs": msgs}
+
+
 def run_stale(e, seed, k):
     """C09 scenario for every operation: operand k is an intermediate W = 2 * P shared with a second graph; the second graph is
     back-propagated first (which clears W), then the loss through the operation: InvalidBackprop, or exactly the recorded gradient."""
@@ -466,9 +539,14 @@ def main():
     out = []
     for t in payload["tasks"]:
         e = E[t["index"]]
+        if e.only is not None and t["mode"] not in e.only:
+            out.append({"label": e.label, "family": e.family, "skipped": "entry not meant for this mode", "errs": [], "outcome": "identity", "msgs": []})
+            continue
         try:
             if t["mode"] == "vjp":
                 out.append(run_vjp(e, t.get("seed", 0), t.get("layout", 0)))
+            elif t["mode"] == "const":
+                out.append(run_const(e, t.get("seed", 0), t.get("variant", 0)))
             elif t["mode"] == "stale":
                 out.append(run_stale(e, t.get("seed", 0), t.get("operand", 0) % len(e.shapes)))
             else:
